@@ -7,7 +7,7 @@ import platform
 import sys
 import _ctypes
 
-from .core import working_block
+from .core import working_block, PostSynthBlock
 from .wire import Input, Output, Const, WireVector, Register
 from .memory import MemBlock, RomBlock
 from .pyrtlexceptions import PyrtlError, PyrtlInternalError
@@ -116,6 +116,10 @@ class CompiledSimulation(object):
 
         self.default_value = default_value
         self._regmap = {}  # Updated below
+        if isinstance(self.block, PostSynthBlock):
+            # like Simulation: a post-synthesis block is given the original design's memories
+            memory_value_map = {self.block.mem_map.get(mem, mem): vals
+                                for mem, vals in memory_value_map.items()}
         self._memmap = memory_value_map
         self._uid_counter = 0
         self.varname = {}  # mapping from wires and memories to C variables
@@ -139,6 +143,8 @@ class CompiledSimulation(object):
 
     def inspect_mem(self, mem):
         """Get a view into the contents of a MemBlock."""
+        if isinstance(self.block, PostSynthBlock):
+            mem = self.block.mem_map.get(mem, mem)
         return DllMemInspector(self, mem)
 
     def inspect(self, w):
